@@ -217,6 +217,9 @@ def r103(ctx):
     pm = calls_to(r, EG + "._pmf_predict")
     for e in ch:
         vals, p = arg(e, 0, "a"), kw(e, "p")
+        if not e.loops:
+            _vectorised_choice(ctx, A, r, e, pm)
+            continue
         lev = [x for x in r.events if x.kind == "loop" and x.data.get("lid") == e.loops[-1]][0]
         i = lev.data["elem"]
         pred = None
@@ -282,6 +285,53 @@ def r103(ctx):
         rs = e.data["fterm"].args[0]
         ok2 = rs.op == "call" and rs.args[0] is glob(CRS)
         ctx.ob("R10.3", r.func, e.node, ok2, "choice() draws from the seeded generator", construct="choice generator")
+
+
+def _vectorised_choice(ctx, A, r, e, pm):
+    """All rows drawn by one call: k = choice(len(S), size=n_rows, p=D[S]) with D = weights_[pred.columns] as an array and S positions
+    into it; the result gathers M[arange(n_rows), S[k]] with M = pred as an array: value column and probability are both the S[k]-th
+    entry of the pred.columns order."""
+    vals, p, size = arg(e, 0, "a"), kw(e, "p"), arg(e, 1, "size")
+    pred = None
+    for c in pm:
+        if contains(p, lambda s: s is c.data["result"]) or (size is not None and contains(size, lambda s: s is c.data["result"])):
+            pred = c.data["result"]
+    ok = False
+    okr = False
+    if pred is not None and p is not None and size is not None and vals.op == "call" and len(vals.args[1]) == 1 \
+            and A.C.canon(vals).op == "fn" and A.C.canon(vals).args[0] == "len":
+        S = vals.args[1][0]
+        b = {"pred": pred, "S": S, "w": A.at(e, "self.weights_"), "K": e.data["result"], "np": glob("numpy")}
+        rows = [A.spec(s_, {**b, "len": glob("builtins.len")}) for s_ in ("pred.shape[0]", "len(pred)")]
+        probs = [A.spec(s_, b) for s_ in ("w[pred.columns].to_numpy()[S]", "w[pred.columns].values[S]", "np.asarray(w[pred.columns])[S]",
+                                           "w.loc[pred.columns].to_numpy()[S]")]
+        ok = any(A.eq(p, x) for x in probs) and any(A.eq(size, x) for x in rows)
+        # the gathered result
+        mats = [A.spec(m_, b) for m_ in ("pred.to_numpy()", "pred.values", "np.asarray(pred)")]
+        reg = r.ret
+        while reg.op == "assume":
+            reg = reg.args[1]
+        alts = [reg.args[1], reg.args[2]] if reg.op == "ite" else [reg]
+        for n_ in rows:
+            for m_ in mats:
+                g = A.spec("M[np.arange(N), S[K]]", {**b, "M": m_, "N": n_})
+                for out in alts:
+                    o_ = out
+                    while o_.op == "assume":
+                        o_ = o_.args[1]
+                    # returned as is, or copied into a float vector of the same length (x = np.zeros(n); x[:] = gathered)
+                    if A.eq(o_, g) or (o_.op == "upd" and o_.args[1].op == "slice" and all(z is NONE for z in o_.args[1].args)
+                                       and A.eq(o_.args[2], g)):
+                        okr = True
+    ctx.ob("R10.3", r.func, e.node, ok if (ok or pred is not None) else None, "values and probabilities handed to choice() are ordered by "
+           "the same index (positions into the pred.columns order)" if ok else f"choice(a={A.show(vals, 80)}, size=.., p={A.show(p, 80) if p is not None else '?'}) "
+           "outside a row loop is not the recognised vectorised draw over pred.columns", construct="aligned choice")
+    ctx.ob("R10.3", r.func, e.node, bool(okr), "one value is drawn per row of pred (size = number of rows) and the result gathers, for "
+           "every row, the drawn predictor's output of that row" if okr else "the vectorised draw does not gather outputs[row, S[drawn]] "
+           "for every row: the drawn position is not mapped back to the predictor's column", construct="one draw per row")
+    rs = e.data["fterm"].args[0]
+    ok2 = rs.op == "call" and rs.args[0] is glob(CRS)
+    ctx.ob("R10.3", r.func, e.node, ok2, "choice() draws from the seeded generator", construct="choice generator")
 
 
 def _shared_c10(ctx):
